@@ -23,6 +23,8 @@ Op swarm_params(Rng& rng, const std::string& obj, bool rational, bool allowTimer
   maybe(0.2, "bool:rowboundflips", I(rng.range(0, 1)));
   maybe(0.7, "int:timer", I(allowTimerOff ? rng.pick({0, 1, 1, 2, 2}) : rng.pick({1, 2})));
   maybe(0.5, "seed:seed", I((long)rng.below(1000)));
+  maybe(0.15, "int:multiprecision_limit", I(rng.range(50, 2000)));
+  maybe(0.15, "int:storeBasisSimplexFreq", I(rng.range(1, 20000)));
   if (rational) {
     s.set("int:solvemode", "2"); s.set("int:syncmode", "1"); s.set("int:readmode", "1"); s.set("int:checkmode", "2");
     s.set("real:feastol", "0"); s.set("real:opttol", "0");
